@@ -209,6 +209,14 @@ def vhdxFindMetaEntry (s : Insp) : Except Err (Option (Nat × Nat)) := do
   if count ≥ 2048 then throw .imageFormat
   vhdxScanMeta buf count 0
 
+/-- the second half of `_find_meta_entry`: stop the metadata region at what it holds, return the
+    size-item region -/
+def vhdxAddVds (s : Insp) (m : Region) (ioff ilen : Nat) : Insp × Option Err :=
+  match (s.updRegion "metadata" (fun r => { r with length := r.data.length })).newRegion "vds"
+      (m.offset + ioff) (min ilen Gen.vhdxMetaTableMax) none false with
+  | .error e => (s.updRegion "metadata" (fun r => { r with length := r.data.length }), some e)
+  | .ok s2 => (s2, none)
+
 def vhdxPostProcess (s : Insp) : Insp × Option Err :=
   match s.region "header" with
   | .error e => (s, some e)
@@ -228,11 +236,7 @@ def vhdxPostProcess (s : Insp) : Insp × Option Err :=
       | .ok (some (ioff, ilen)) =>
         match s.region "metadata" with
         | .error e => (s, some e)
-        | .ok m =>
-          let s1 := s.updRegion "metadata" (fun r => { r with length := r.data.length })
-          match s1.newRegion "vds" (m.offset + ioff) (min ilen Gen.vhdxMetaTableMax) none false with
-          | .error e => (s1, some e)
-          | .ok s2 => (s2, none)
+        | .ok m => vhdxAddVds s m ioff ilen
     else (s, none)
 
 /-! ### VMDK (lines 847-1085) -/
@@ -260,6 +264,31 @@ def kdmv : Bytes := ascii "KDMV"
 def isTextHeader (d : Bytes) : Bool :=
   d.all (fun b => isAscii b && (isAsciiPrintable b || isAsciiSpace b))
 
+/-- footer announced: add the end-capture region and its safety check (lines 927-931) -/
+def vmdkAddFooter (s : Insp) (gdOffset : Nat) : Except Err Insp :=
+  if gdOffset = Gen.vmdkGdAtEnd && !s.hasRegion "footer" then
+    match s.newRegion "footer" 1536 1536 none true with
+    | .error e => .error e
+    | .ok s' =>
+      if s'.checks.contains "footer" then .error .runtime
+      else .ok { s' with checks := s'.checks ++ ["footer"] }
+  else .ok s
+
+/-- descriptor location check and relocation of the descriptor region (lines 937-948) -/
+def vmdkRelocate (s1 : Insp) (descSec descNum : Nat) : Insp × Option Err :=
+  if descSec * 512 ≠ Gen.vmdkDescOffset then (s1, some .imageFormat) else
+  match s1.region "descriptor" with
+  | .error e => (s1, some e)
+  | .ok dr =>
+    if dr.offset = 0 then
+      match s1.deleteRegion "descriptor" with
+      | .error e => (s1, some e)
+      | .ok s2 =>
+        match s2.newRegion "descriptor" (descSec * 512) (min (descNum * 512) Gen.vmdkDescMaxSize) none false with
+        | .error e => (s2, some e)
+        | .ok s3 => (s3, none)
+    else (s1, none)
+
 def vmdkPostProcess (s : Insp) : Insp × Option Err :=
   match lookupR "header" s.regions with
   | none => (s, none)
@@ -276,32 +305,9 @@ def vmdkPostProcess (s : Insp) : Insp × Option Err :=
         else (s, some .imageFormat)
       else if !(hd.ver = 1 || hd.ver = 2 || hd.ver = 3) then (s, some .imageFormat)
       else
-        -- footer announced: add the end-capture region and its safety check
-        let r1 : Except Err Insp :=
-          if hd.gdOffset = Gen.vmdkGdAtEnd && !s.hasRegion "footer" then
-            match s.newRegion "footer" 1536 1536 none true with
-            | .error e => .error e
-            | .ok s' =>
-              if s'.checks.contains "footer" then .error .runtime
-              else .ok { s' with checks := s'.checks ++ ["footer"] }
-          else .ok s
-        match r1 with
+        match vmdkAddFooter s hd.gdOffset with
         | .error e => (s, some e)
-        | .ok s1 =>
-          let descOffset := hd.descSec * 512
-          let descSize := min (hd.descNum * 512) Gen.vmdkDescMaxSize
-          if descOffset ≠ Gen.vmdkDescOffset then (s1, some .imageFormat) else
-          match s1.region "descriptor" with
-          | .error e => (s1, some e)
-          | .ok dr =>
-            if dr.offset = 0 then
-              match s1.deleteRegion "descriptor" with
-              | .error e => (s1, some e)
-              | .ok s2 =>
-                match s2.newRegion "descriptor" descOffset descSize none false with
-                | .error e => (s2, some e)
-                | .ok s3 => (s3, none)
-            else (s1, none)
+        | .ok s1 => vmdkRelocate s1 hd.descSec hd.descNum
 
 def createTypeKey : Bytes := ascii "createtype=\""
 
